@@ -531,3 +531,41 @@ func GenReentrant(t *rapid.T, cfg GenCfg, self string) Program {
 	}
 	return p
 }
+
+// GenRepeater generates a program that calls one callee several times in a row (with value), optionally touching
+// storage in between: effects that are only correct the first time an account is visited in a transaction (repeated
+// self-destructs of a re-funded contract, warm/cold transitions, refunds) show up on the later visits.
+func GenRepeater(t *rapid.T, cfg GenCfg) Program {
+	if len(cfg.CallTargets) == 0 {
+		return GenProgram(t, cfg)
+	}
+	callee := pick(t, "rp_callee", cfg.CallTargets)
+	var p Program
+	for i, n := 0, rapid.IntRange(2, 4).Draw(t, "rp_n"); i < n; i++ {
+		val := "0"
+		if !cfg.NoValue {
+			val = strconv.Itoa(rapid.IntRange(0, 3).Draw(t, "rp_val") * 500)
+		}
+		p = append(p, Stmt{Op: "call", A: callee, B: val, N: genGas(t), Sink: genSink(t), Data: fmt.Sprintf("%02x", rapid.IntRange(0, 3).Draw(t, "rp_cd"))})
+		if rapid.IntRange(0, 2).Draw(t, "rp_between") == 0 {
+			p = append(p, GenStmt(t, cfg, false))
+		}
+	}
+	if rapid.IntRange(0, 3).Draw(t, "rp_term") == 0 {
+		p = append(p, GenStmt(t, cfg, true))
+	}
+	return p
+}
+
+// GenDestructor generates a small contract that (after optional bookkeeping) self-destructs toward a pool address
+// every time it is called.
+func GenDestructor(t *rapid.T, cfg GenCfg) Program {
+	var p Program
+	if rapid.Bool().Draw(t, "ds_store") {
+		p = append(p, Stmt{Op: "sinc", A: strconv.Itoa(rapid.IntRange(0, 3).Draw(t, "ds_slot"))})
+	}
+	if rapid.IntRange(0, 2).Draw(t, "ds_log") == 0 {
+		p = append(p, Stmt{Op: "log", N: 1, M: 4})
+	}
+	return append(p, Stmt{Op: "selfdestruct", A: pick(t, "ds_ben", cfg.Addrs)})
+}
